@@ -4,6 +4,7 @@ from .kea import Interp, Unknown, Byte, mem_byte, EMPTY
 from .ir import strip_casts
 
 P = 16          # largest unroll period of any kernel (bytes)
+XOR_KINDS = ('xor1', 'xor-from', 'xor-to')     # the kernels the linear-binary codecs and the dense solver use
 
 KERNELS = [
     dict(name='of_add_to_symbol', unit='of_symbol.c', kind='xor1', size=2),
@@ -17,12 +18,14 @@ KERNELS = [
 ]
 
 
-def r_kernel_shape(ctx, prog):
+def r_kernel_shape(ctx, prog, kinds=None):
     R = 'R-KERNEL-SHAPE'
     ctx.rule(R, 'in every kernel all scalars derived from the size / operand count are built with + - and with * / mod << >> & by '
              'constants only, no address is converted to an integer, nothing is called: every extent expression is quasi-affine in '
              'the size with period dividing 16, so the finite size range analysed by R-KEA is sufficient for all sizes', floor=1)
     for sp in KERNELS:
+        if kinds is not None and sp['kind'] not in kinds:
+            continue
         f = prog.fn(sp['name'], sp['unit'])
         ctx.need(f is not None, R, 'kernel %s not found' % sp['name'])
         bad = None
@@ -121,13 +124,15 @@ def src_regions(sp, count):
     return [('arg', 1)]
 
 
-def r_kea(ctx, prog, sizes, counts):
+def r_kea(ctx, prog, sizes, counts, kinds=None):
     R = 'R-KEA'
     ctx.rule(R, 'for every size class and operand count analysed, each kernel stores exactly the bytes [0,size) of each destination, '
              'loads only bytes [0,size) of its operands and entries [0,count) of the operand table, never writes a source, and every '
              'stored byte equals the byte-wise definition (XOR of the same-offset bytes / old XOR T[c][src])', floor=1)
     total_runs = 0
     for sp in KERNELS:
+        if kinds is not None and sp['kind'] not in kinds:
+            continue
         f = prog.fn(sp['name'], sp['unit'])
         ctx.need(f is not None, R, 'kernel %s not found' % sp['name'])
         cs = counts if 'count' in sp else [None]
